@@ -39,7 +39,7 @@ ALLOWED_ASSUMPTION = re.compile(
 PRIM_NAMES = {"float", "int", "add", "sub", "mul", "div", "opp", "abs", "sqrt", "eqb", "ltb", "leb", "compare", "classify", "of_uint63",
               "normfr_mantissa", "frshiftexp", "ldshiftexp", "next_up", "next_down", "lsl", "lsr", "land", "lor", "lxor", "mod",
               "addc", "subc", "addcarryc", "subcarryc", "mulc", "diveucl", "diveucl_21", "addmuldiv", "head0", "tail0", "float_class", "float_comparison"}
-PRIM_TYPE = re.compile(r"^[\s\(\)\*\->]*((float|int|bool|Set|float_class|float_comparison|comparison|carry|unit)[\s\(\)\*\->]*)+$")
+PRIM_TYPE = re.compile(r"^[\s\(\)\*\->]*(((PrimInt63\.|Uint63\.|PrimFloat\.)?(float|int|bool|Set|float_class|float_comparison|comparison|carry|unit))[\s\(\)\*\->]*)+$")
 
 
 def allowed_assumption(entry):
